@@ -455,6 +455,10 @@ def record_type(ctx):
         ty = f['ty']
         if ty.get('adt') == 'std::vec::Vec' and ty['args'] and ty['args'][0].get('adt') in ctx.lib.adts:
             c.add(ty['args'][0]['adt'])
+        import re
+        m = re.match(r'^\[(.+); \d+\]$', ty['s'])
+        if m and m.group(1) in ctx.lib.adts:
+            c.add(m.group(1))
     if len(c) != 1:
         raise AnchorLost('ephemeris record type', str(c))
     return c.pop()
@@ -553,5 +557,5 @@ def check(ctx, rep, c):
         hy2.visit(t, 360.0 if fn in modular else None)
     rep.extra['modular_uses'] = {'normalised': hy.n_periodic + hy2.n_periodic, 'single_representative': hy.n_single + hy2.n_single,
                                  'guard_comparisons': hy.n_guard + hy2.n_guard, 'aligned_cases': hy.n_aligned + hy2.n_aligned}
-    rep.floor('normalised uses of modular quantities', hy.n_periodic + hy2.n_periodic, 5)
+    rep.floor('normalised uses of modular quantities', hy.n_periodic + hy2.n_periodic, 3)
     rep.floor('aligned day-to-day differences (seam cases)', hy.n_aligned, 6)
